@@ -1,49 +1,37 @@
-"""Regenerates /verif/MANIFEST.json from the table below (run: python -m harness.mkmanifest)."""
+"""Regenerates /verif/MANIFEST.json from harness/claims/Cxx.json (run: python -m harness.mkmanifest).
+
+A claim file has the keys  text, design, technique, note  (optionally category, default "proof").
+A property without a claim file is listed under not_applicable with the reason given in
+harness/claims/not_applicable.json (or the default 'not built yet' text)."""
 import json
 import os
 
 VERIF = os.path.dirname(os.path.dirname(os.path.abspath(__file__)))
 ALL = [f"C{i:02d}" for i in range(1, 21)]
+CDIR = os.path.join(VERIF, "harness", "claims")
 
 BASE_NOTE = ("Trusted: Coq 8.16.1 kernel; extraction with ExtrOcamlBasic only + OCaml driver; the "
              "hand-written Gallina model is tied to /repo by the differential correspondence run of "
              "this same command (generator quality bounds it); numpy/gymnasium semantics taken as "
-             "given. All theorems of the property file are 'Closed under the global context'.")
-
-CLAIMED = {
-    "C04": dict(
-        text=("Proof: ravel/unravel/size/check_space are modelled in Gallina (Spaces/Ravel.v) and the "
-              "bijection (range, both round trips, injectivity, surjectivity, helper dimension = size) "
-              "is proved by structural induction for every nesting and every point "
-              "(Props/P_C04.v, 11 theorems, no axioms). Every run re-checks the theorems and runs the "
-              "extracted model against /repo's ravel/unravel/ravel_space/check_space on all points "
-              "of hundreds of small spaces and sampled points of large ones; the extracted checker "
-              "chk_C04 (proved true of the model) is applied to the implementation's answers."),
-        design="5 C04",
-        technique="Coq proof by structural induction (mixed-radix bijection) + extracted-model differential correspondence",
-        note=BASE_NOTE + " Outside the model: int64 overflow for >= 2^62 points, Discrete(start != 0)."),
-    "C05": dict(
-        text=("Proof: flatdim/flatten/unflatten/flatten_space are modelled in Gallina "
-              "(Spaces/Flatten.v, including numpy's upcast of integer parts when concatenated with "
-              "float parts and the np.split offsets) and length, Box membership, value-preserving "
-              "round trip (also under upcast), 'integer exactly when every leaf is' and exact round "
-              "trip for all-integer spaces are proved by structural induction over every nesting "
-              "(Props/P_C05.v, 9 theorems, no axioms). Each run re-checks them and runs the extracted "
-              "model and the extracted checker chk_C05 against /repo's functions (gymnasium's "
-              "contains() as membership oracle) on all points of small spaces and sampled dyadic "
-              "points otherwise."),
-        design="5 C05",
-        technique="Coq proof by structural induction over nested spaces + extracted-model differential correspondence",
-        note=BASE_NOTE + " Float leaves are dyadic rationals k/1024; float32 narrowing is outside the model."),
-}
+             "given. ")
 
 
 def main():
+    claimed = {}
+    for pid in ALL:
+        p = os.path.join(CDIR, pid + ".json")
+        if os.path.exists(p):
+            claimed[pid] = json.load(open(p))
+    na_path = os.path.join(CDIR, "not_applicable.json")
+    na = json.load(open(na_path)) if os.path.exists(na_path) else {}
     checks = []
     for pid in ALL:
-        if pid not in CLAIMED:
+        if pid not in claimed:
             continue
-        c = CLAIMED[pid]
+        c = claimed[pid]
+        note = c["note"]
+        if not note.startswith("Trusted:"):
+            note = BASE_NOTE + note
         checks.append({
             "property_id": pid,
             "quick_cmd": f"./check {pid} quick",
@@ -51,9 +39,9 @@ def main():
             "evidence_file": f"/verif/evidence/{pid}.json",
             "replay_cmd_template": "./check --replay {path}",
             "engine": "coq-extract-diff",
-            "level_claimed": {"category": "proof", "text": c["text"],
+            "level_claimed": {"category": c.get("category", "proof"), "text": c["text"],
                               "design_ref": "DESIGN.md section " + c["design"]},
-            "level_note": c["note"],
+            "level_note": note,
             "technique": c["technique"],
         })
     man = {
@@ -71,7 +59,7 @@ def main():
         "engines": [{
             "name": "coq-extract-diff",
             "path": "/verif/check",
-            "serves_properties": sorted(CLAIMED),
+            "serves_properties": sorted(claimed),
             "kind_free_text": "Coq 8.16.1 theorems about hand-written Gallina models; models "
                               "extracted to OCaml and run differentially against /repo's Python on "
                               "generated inputs; extracted boolean property checkers applied to the "
@@ -80,12 +68,13 @@ def main():
         "checks": checks,
         "notes": "See DESIGN.md. known_findings.json lists recorded findings and fixed defects.",
         "not_applicable": [{"property_id": p,
-                            "reason": "check not built yet in this revision (planned, see DESIGN.md section 5)"}
-                           for p in ALL if p not in CLAIMED],
+                            "reason": na.get(p, "check not built yet in this revision (planned, see "
+                                                "DESIGN.md section 5)")}
+                           for p in ALL if p not in claimed],
     }
     with open(os.path.join(VERIF, "MANIFEST.json"), "w") as f:
         json.dump(man, f, indent=1)
-    print("claimed:", sorted(CLAIMED))
+    print("claimed:", sorted(claimed))
 
 
 if __name__ == "__main__":
